@@ -22,11 +22,20 @@ pub enum Case {
 
 pub fn check_encode(m: &RMsg) -> CheckResult {
     let cm = to_crate(m);
-    let got = guard(|| cm.as_bytes()).map_err(|p| Violation::from_panic("Message::as_bytes", &p))?;
+    let got =
+        guard(|| cm.as_bytes()).map_err(|p| Violation::from_panic("Message::as_bytes", &p))?;
     let (want, map) = refcodec::encode_with_map(m);
     if got != want {
-        let pos = got.iter().zip(want.iter()).position(|(a, b)| a != b).unwrap_or(got.len().min(want.len()));
-        let role = map.iter().find(|f| f.start <= pos && pos < f.end).map(|f| format!("{:?}", f.role)).unwrap_or_else(|| "length".to_string());
+        let pos = got
+            .iter()
+            .zip(want.iter())
+            .position(|(a, b)| a != b)
+            .unwrap_or(got.len().min(want.len()));
+        let role = map
+            .iter()
+            .find(|f| f.start <= pos && pos < f.end)
+            .map(|f| format!("{:?}", f.role))
+            .unwrap_or_else(|| "length".to_string());
         return Err(viol!(
             format!("encode:{}:{}", m.payload_kind(), role),
             "Message::as_bytes differs from the reference layout at byte {} (field {}): crate {} / reference {} for {}",
@@ -57,7 +66,9 @@ pub fn check(c: &Case) -> CheckResult {
 }
 
 pub fn decode_strategy() -> impl Strategy<Value = Case> {
-    any::<bool>().prop_flat_map(|storage| gb::hostile(storage).prop_map(move |buf| Case::Decode { buf, storage }))
+    any::<bool>().prop_flat_map(|storage| {
+        gb::hostile(storage).prop_map(move |buf| Case::Decode { buf, storage })
+    })
 }
 
 pub fn run(run: &Run) {
@@ -80,8 +91,18 @@ pub fn run(run: &Run) {
             let cell = block * 256 + i;
             let flags = (cell & 31) as u8;
             let msin = ((cell >> 5) & 255) as u8;
-            let storage = if (cell >> 13) & 1 == 1 { g::StorageMode::Always } else { g::StorageMode::Never };
-            let strat = g::message(g::MsgParams { storage, large: false, pool_ids: false, cell: Some((flags, msin)), free_noar: true });
+            let storage = if (cell >> 13) & 1 == 1 {
+                g::StorageMode::Always
+            } else {
+                g::StorageMode::Never
+            };
+            let strat = g::message(g::MsgParams {
+                storage,
+                large: false,
+                pool_ids: false,
+                cell: Some((flags, msin)),
+                free_noar: true,
+            });
             rep.evaluations += 1;
             match sampler.check(&strat, &|m: &RMsg| check_encode(m)) {
                 Ok((m, p)) => {
@@ -102,8 +123,26 @@ pub fn run(run: &Run) {
         rep.classes = vec![("grid-cell", 256)];
         rep
     });
-    run.random("encode", run.cases(150_000, 2_000_000), 0.5, || g::message(g::MsgParams { free_noar: true, ..Default::default() }).prop_map(Case::Encode), check);
-    run.random("decode", run.cases(400_000, 8_000_000), 0.4, decode_strategy, check);
+    run.random(
+        "encode",
+        run.cases(150_000, 2_000_000),
+        0.5,
+        || {
+            g::message(g::MsgParams {
+                free_noar: true,
+                ..Default::default()
+            })
+            .prop_map(Case::Encode)
+        },
+        check,
+    );
+    run.random(
+        "decode",
+        run.cases(400_000, 8_000_000),
+        0.4,
+        decode_strategy,
+        check,
+    );
 }
 
 pub fn replay(section: &str, case: &Json) -> Option<CheckResult> {
